@@ -48,6 +48,7 @@ func C18(ctx *Ctx) {
 			}
 		}
 	}
+	callSites := staticCallSites(funcs)
 	for _, g := range globals {
 		if used[g] == nil {
 			used[g] = map[*ssa.Function]bool{}
@@ -76,15 +77,19 @@ func C18(ctx *Ctx) {
 				continue
 			}
 			users++
-			for _, s := range ta.run(fn, []ssa.Value{g}) {
+			for _, s := range followReturns(ta, callSites, fn, []ssa.Value{g}, 0, map[*ssa.Function]bool{}) {
 				pos := ctx.Prog.Pos(s.Instr.Pos())
+				where := fn
+				if s.Instr.Parent() != nil {
+					where = s.Instr.Parent() // a reference followed out of an accessor is reported where it is misused
+				}
 				switch s.Kind {
 				case sinkStore:
 					nStore++
-					R.Fail("globals", fmt.Sprintf("%s:written-in:%s", name, fnShort(fn)), pos, s.What)
+					R.Fail("globals", fmt.Sprintf("%s:written-in:%s", name, fnShort(where)), pos, s.What)
 				default:
 					nEsc++
-					R.Fail("escape", fmt.Sprintf("%s:%s:%s", name, s.Kind, fnShort(fn)), pos, s.What)
+					R.Fail("escape", fmt.Sprintf("%s:%s:%s", name, s.Kind, fnShort(where)), pos, s.What)
 				}
 			}
 		}
@@ -160,4 +165,72 @@ func stdlibAllowed(name string) bool {
 		}
 	}
 	return false
+}
+
+// callSiteIndex: per in-module function, its static call sites, and whether it is also used as a value (so that
+// not all its callers are known).
+type callSiteIndex struct {
+	sites   map[*ssa.Function][]*ssa.Call
+	asValue map[*ssa.Function]bool
+}
+
+func staticCallSites(funcs []*ssa.Function) *callSiteIndex {
+	ix := &callSiteIndex{sites: map[*ssa.Function][]*ssa.Call{}, asValue: map[*ssa.Function]bool{}}
+	for _, fn := range funcs {
+		for _, b := range fn.Blocks {
+			for _, in := range b.Instrs {
+				var callee *ssa.Function
+				if c, ok := in.(*ssa.Call); ok {
+					if callee = c.Call.StaticCallee(); callee != nil {
+						ix.sites[callee] = append(ix.sites[callee], c)
+					}
+				}
+				var ops [16]*ssa.Value
+				for i, op := range in.Operands(ops[:0]) {
+					if op == nil || *op == nil {
+						continue
+					}
+					if f, ok := (*op).(*ssa.Function); ok && !(f == callee && i == 0) {
+						if _, isCall := in.(ssa.CallInstruction); !isCall || f != callee {
+							ix.asValue[f] = true
+						}
+					}
+				}
+			}
+		}
+	}
+	return ix
+}
+
+// followReturns runs the reference propagation in fn from the seeds; where the only thing that happens to a shared
+// reference is that an unexported function returns it, the reference is followed into every caller instead of being
+// reported (an accessor such as `func blanksFrom(n int) []byte { return spaces[n:] }` publishes nothing by itself).
+func followReturns(ta *taintAnalysis, ix *callSiteIndex, fn *ssa.Function, seeds []ssa.Value, depth int, seen map[*ssa.Function]bool) []sink {
+	var out []sink
+	returned := false
+	for _, s := range ta.run(fn, seeds) {
+		if _, isRet := s.Instr.(*ssa.Return); isRet && s.Kind == sinkEscape {
+			exported := fn.Object() != nil && fn.Object().Exported()
+			if !exported && !ix.asValue[fn] && fn.Parent() == nil && depth < 6 && !seen[fn] {
+				returned = true
+				continue
+			}
+		}
+		out = append(out, s)
+	}
+	if returned {
+		seen[fn] = true
+		byCaller := map[*ssa.Function][]ssa.Value{}
+		var order []*ssa.Function
+		for _, c := range ix.sites[fn] {
+			if byCaller[c.Parent()] == nil {
+				order = append(order, c.Parent())
+			}
+			byCaller[c.Parent()] = append(byCaller[c.Parent()], c)
+		}
+		for _, caller := range order {
+			out = append(out, followReturns(ta, ix, caller, byCaller[caller], depth+1, seen)...)
+		}
+	}
+	return out
 }
